@@ -8,6 +8,7 @@ import (
 	"fmt"
 	"net"
 	"net/netip"
+	"slices"
 	"sort"
 	"strings"
 	"sync"
@@ -191,9 +192,11 @@ type c20Fix struct {
 
 // newC20Fix must run inside a bubble: the table loop is started (gossip reads the
 // table only once its initial refresh is done, and pong processing goes through it).
-func newC20Fix(proto string, n, limit int) *c20Fix {
+func newC20Fix(proto string, n, limit int) *c20Fix { return newC20FixConf(proto, n, limit, nil) }
+
+func newC20FixConf(proto string, n, limit int, conf *portalwire.PortalProtocolConfig) *c20Fix {
 	st := &fixedRadiusStore{ContentStorage: storage.NewMockStorage(), radius: new(uint256.Int).SetAllOne()}
-	bn := newBareNode(bareOpts{keyIdx: 20, proto: c20Protos[proto], store: st})
+	bn := newBareNode(bareOpts{keyIdx: 20, proto: c20Protos[proto], store: st, conf: conf})
 	bn.P.Utp = portalwire.NewZenEthUtp(context.Background(), &portalwire.PortalProtocolConfig{MaxUtpConnSize: limit}, nil, c20Conn{})
 	bn.P.VerifSetContentIdFunc(func(k []byte) []byte { return k })
 	// a real discv5 endpoint on a wire that loses every datagram: a record refresh (a ping or
@@ -924,7 +927,45 @@ func c20RunRadius(r *mc.Report, f *c20Fix, c c20Case) bool {
 	return true
 }
 
+// c20SharedConfig: two sub-protocols of one process, built from ONE config object as portal/node.go
+// builds them. A node that is in both tables reports a covering radius on the first network and a
+// non-covering one on the second: each network must keep using what was reported on it.
+func c20SharedConfig(r *mc.Report) {
+	for _, pair := range [][2]string{{"history", "state"}, {"state", "beacon"}, {"beacon", "history"}} {
+		cs := c20Case{Kind: "radius", N: 3, Limit: 50, Proto: pair[0], Seq: []string{"shared-config:" + pair[0] + "+" + pair[1]}}
+		msg := inBubble(func() {
+			conf := portalwire.DefaultPortalProtocolConfig()
+			f1, f2 := newC20FixConf(pair[0], 3, 50, conf), newC20FixConf(pair[1], 3, 50, conf)
+			defer f1.close()
+			defer f2.close()
+			x := f1.nodes[1]
+			cid, d := x.ID().Bytes(), c20D.Bytes32()
+			for i := range cid {
+				cid[i] ^= d[i]
+			}
+			keys, contents := c20Batch(cid, 0)
+			f1.talkPing(x, x.Seq(), pingext.ClientInfo, c20SSZ(c20Rs["r1"]))
+			synctest.Wait()
+			f2.talkPing(x, x.Seq(), pingext.ClientInfo, c20SSZ(c20Rs["r2"]))
+			synctest.Wait()
+			cached := f1.bn.P.VerifCachedRadius(x.ID())
+			got, _, _ := f1.gossip(nil, nil, keys, contents)
+			chosen := slices.Contains(got, x.ID())
+			if !bytes.Equal(cached, c20SSZ(c20Rs["r1"])) || !chosen {
+				r.Violation("cache-holds-last-reported-radius", "two-sub-protocols-one-config:"+pair[0]+"+"+pair[1], fmt.Sprintf("the node reported %x on the %s network and then %x on the %s network (same process, one config object): the %s network now holds %x for it and gossip target = %v", c20SSZ(c20Rs["r1"]), pair[0], c20SSZ(c20Rs["r2"]), pair[1], pair[0], cached, chosen), cs)
+			}
+			r.Exec(fmt.Sprintf("sharedconf|%s+%s|%v", pair[0], pair[1], chosen))
+		})
+		if msg != "" {
+			r.EngineError("C20 shared config: " + msg)
+		}
+	}
+}
+
 func c20Radius(r *mc.Report, e *Env, unit *int) {
+	if e.Of <= 1 || e.Shard == 0 {
+		c20SharedConfig(r)
+	}
 	evs, length, total := c20Events(), 3, 0
 	if e.Thorough() {
 		length = 4
